@@ -14,6 +14,8 @@ package schedx
 
 import (
 	"fmt"
+	"sort"
+	"strings"
 	"sync"
 
 	"verif/kit"
@@ -219,4 +221,224 @@ func FreeRun(bodies []func()) (panics []string) {
 	close(start)
 	wg.Wait()
 	return panics
+}
+
+// ---------------------------------------------------------------------------
+// Serializability oracle.
+
+// Op is one operation of a thread (one handler invocation, one registry call ...).
+type Op struct {
+	Name string
+	Do   func()
+}
+
+// Instance is one fresh instance of a concurrent scenario.
+type Instance struct {
+	Threads [][]Op
+	// Observe returns the canonical, randomness-free description of everything
+	// the property can see once all threads are done (it may run more of the
+	// system first: drain the network, probe, look up).
+	Observe func() string
+	// Check, if set, evaluates invariants that must hold on every execution
+	// (serial or not) and reports through ex.Bad.
+	Check func(ex *Exec)
+}
+
+// Conc is a concurrent scenario judged against its own serial executions: the
+// observation of every explored schedule must equal the observation of SOME
+// order in which the operations run one after the other (per-thread order
+// kept). No expected value is written by hand.
+type Conc struct {
+	Name  string
+	Build func() *Instance
+	// Wrap runs one execution (e.g. inside a bubble of virtual time); nil = direct.
+	Wrap func(f func())
+	// MaxPoints is the horizon of scheduling points per execution (0 = 20000).
+	MaxPoints int
+}
+
+func (c Conc) wrap(f func()) {
+	if c.Wrap != nil {
+		c.Wrap(f)
+		return
+	}
+	f()
+}
+
+// Serial runs every merge order of the threads' operation lists on fresh
+// instances and returns the set of observations (order description per observation).
+func (c Conc) Serial() (allowed map[string]string, n int) {
+	allowed = map[string]string{}
+	var shape []int
+	c.wrap(func() {
+		in := c.Build()
+		for _, th := range in.Threads {
+			shape = append(shape, len(th))
+		}
+	})
+	var rec func(pos []int, order [][2]int)
+	rec = func(pos []int, order [][2]int) {
+		done := true
+		for ti := range shape {
+			if pos[ti] < shape[ti] {
+				done = false
+				np := append([]int(nil), pos...)
+				np[ti]++
+				rec(np, append(append([][2]int(nil), order...), [2]int{ti, pos[ti]}))
+			}
+		}
+		if !done {
+			return
+		}
+		c.wrap(func() {
+			in := c.Build()
+			desc := ""
+			for _, o := range order {
+				op := in.Threads[o[0]][o[1]]
+				op.Do()
+				desc += op.Name + "; "
+			}
+			obs := in.Observe()
+			n++
+			if _, ok := allowed[obs]; !ok {
+				allowed[obs] = desc
+			}
+		})
+	}
+	rec(make([]int, len(shape)), nil)
+	return allowed, n
+}
+
+// Scenario turns the concurrent scenario into an explorable one; allowed is the
+// result of Serial.
+func (c Conc) Scenario(allowed map[string]string) Scenario {
+	max := c.MaxPoints
+	if max == 0 {
+		max = 20000
+	}
+	return Scenario{Name: c.Name, Run: func(choices []int) *Exec {
+		ex := &Exec{}
+		c.wrap(func() {
+			in := c.Build()
+			var bodies []func()
+			for _, th := range in.Threads {
+				th := th
+				bodies = append(bodies, func() {
+					for _, op := range th {
+						op.Do()
+					}
+				})
+			}
+			ex.Res = sched.Run(bodies, choices, max)
+			if ex.Res.Deadlock || ex.Res.Diverged != "" {
+				return
+			}
+			ex.Sig = in.Observe()
+			if in.Check != nil {
+				in.Check(ex)
+			}
+			if _, ok := allowed[ex.Sig]; !ok && len(ex.Res.Panics) == 0 {
+				ex.Bad("not-serializable", "the outcome of this interleaving equals the outcome of NO order in which the same operations run one after the other. %s", nearest(ex.Sig, allowed))
+			}
+		})
+		return ex
+	}}
+}
+
+// FreeRunConc runs the scenario iters times on free goroutines with the same oracles.
+func (c Conc) FreeRunConc(rep *kit.Report, env kit.Env, allowed map[string]string, iters int) (n int64) {
+	for i := 0; i < iters && !env.Expired(); i++ {
+		ex := &Exec{}
+		c.wrap(func() {
+			in := c.Build()
+			var bodies []func()
+			for _, th := range in.Threads {
+				th := th
+				bodies = append(bodies, func() {
+					for _, op := range th {
+						op.Do()
+					}
+				})
+			}
+			ex.Res.Panics = FreeRun(bodies)
+			ex.Sig = in.Observe()
+			if in.Check != nil {
+				in.Check(ex)
+			}
+			if _, ok := allowed[ex.Sig]; !ok && len(ex.Res.Panics) == 0 {
+				ex.Bad("not-serializable", "free-running: outcome equals no serial order. %s", nearest(ex.Sig, allowed))
+			}
+		})
+		n++
+		for _, p := range ex.Res.Panics {
+			rep.Violate("free-running/"+c.Name+"/panic", p, nil)
+		}
+		for _, v := range ex.Viol {
+			rep.Violate("free-running/"+c.Name+"/"+v[0], v[1], nil)
+		}
+	}
+	return n
+}
+
+func clip(s string, n int) string {
+	if len(s) > n {
+		return s[:n] + "..."
+	}
+	return s
+}
+
+// nearest describes how obs differs from the closest serial outcome (line diff).
+func nearest(obs string, allowed map[string]string) string {
+	ol := strings.Split(obs, "\n")
+	best, bestOrder, bestN := []string(nil), "", -1
+	for a, order := range allowed {
+		al := strings.Split(a, "\n")
+		set := map[string]int{}
+		for _, l := range al {
+			set[l]++
+		}
+		var diff []string
+		for _, l := range ol {
+			if set[l] > 0 {
+				set[l]--
+			} else {
+				diff = append(diff, "+ "+clip(l, 400))
+			}
+		}
+		for l, n := range set {
+			for ; n > 0; n-- {
+				diff = append(diff, "- "+clip(l, 400))
+			}
+		}
+		if bestN < 0 || len(diff) < bestN {
+			best, bestOrder, bestN = diff, order, len(diff)
+		}
+	}
+	sort.Strings(best)
+	if len(best) > 12 {
+		best = append(best[:12], "...")
+	}
+	return fmt.Sprintf("Closest serial order [%s]; lines only in the interleaved outcome (+) / only in the serial one (-): %s", clip(bestOrder, 200), strings.Join(best, " || "))
+}
+
+func clipAllowed(allowed map[string]string) string {
+	out := ""
+	for obs, order := range allowed {
+		out += fmt.Sprintf("{%s => %s} ", clip(order, 120), clip(obs, 300))
+		if len(out) > 1500 {
+			return out + "..."
+		}
+	}
+	return out
+}
+
+// ExploreConc computes the serial outcomes, explores all schedules within the
+// bound and records the statistics.
+func ExploreConc(rep *kit.Report, env kit.Env, c Conc, bound int, top *int) Stats {
+	allowed, nser := c.Serial()
+	sc := c.Scenario(allowed)
+	st := Explore(rep, env, sc, bound, top)
+	Record(rep, sc, st)
+	rep.OutcomeN("sched:"+c.Name+" [serial orders run for the oracle]", int64(nser))
+	return st
 }
